@@ -65,8 +65,10 @@ def _short(v):
 LINITER = 500
 
 
-def _fd_sizes(bc, ndim):
+def _fd_sizes(bc, ndim, order=2):
     base = {1: 16, 2: 8, 3: 4}[ndim]
+    if ndim == 3 and order > 2 and bc != 'periodic':
+        base = 8  # the one-sided 4th-order boundary stencils need more than 4 points
     n = base - 1 if bc == 'dirichlet-zero' else base
     return n if ndim == 1 else (n,) * ndim
 
@@ -80,7 +82,7 @@ def v_heat(tier, forced=False):
                 orders = (2, 4) if (tier == 'thorough' or (solver == 'direct' and ndim < 3)) else (2,)
                 for order in orders:
                     p = dict(
-                        nvars=_fd_sizes(bc, ndim),
+                        nvars=_fd_sizes(bc, ndim, order),
                         nu=0.1,
                         freq=2 if ndim == 1 else (2,) * ndim,
                         bc=bc,
